@@ -144,6 +144,8 @@ UNITS["C17"] = [
 ]
 
 UNITS["C16"] = [
+    dict(kind="structural", name="c16_fresh_id", check="cluster_id_fresh", file="crates/klukai-agent/src/agent/handlers.rs", fn="spawn_incoming_connection_handlers",
+         trusted=["syntactic reading of the three sites (vx/structural.py cluster_id_fresh); Agent::cluster_id() loads the current value (ArcSwap)"]),
     dict(kind="kani", name="c16_members", crate="kani/c18_members",
          harnesses=[dict(name="add_member_contract", bound="<=2 existing members, ids/addrs over 4 values, ts/cluster full u64/u16; inductive step from an arbitrary state")],
          trusted=["same stand-ins as unit c18_members"],
@@ -222,8 +224,8 @@ UNITS["C10"] = [
 
 UNITS["C14"] = [
     dict(kind="verus", name="c14_updates", template="specs/c14_updates.vrs",
-         under_contract=["frag_candidate", "frag_trim", "frag_parity"],
-         vacuity=["frag_candidate", "frag_trim", "frag_parity"],
+         under_contract=["frag_candidate", "frag_trim", "frag_parity", "frag_impactful"],
+         vacuity=["frag_candidate", "frag_trim", "frag_parity", "frag_impactful"],
          assumptions=["IndexMap (ordered) stand-ins for the cl cache and the pending buffer; TableName opaque",
                       "monotonicity holds while a key stays in the 1000..2000-entry cache (eviction of the key ends the guarantee — part of the contract)",
                       "NOT decided: that every committed change reaches match_changes, channel delivery, unpack_columns of the pk (see C09)"]),
